@@ -105,7 +105,7 @@ def run(ctx):
     n = 100 if quick else 400
     jobs = []
     for name in sorted(specs):
-        k = 2 if quick else 6
+        k = (getattr(specs[name], "quick_shards", 2) if quick else 6)
         for i in range(k):
             jobs.append((name, ctx.seed * 1000 + i, n, not quick))
     for r in pmap(shard, jobs):
